@@ -28,11 +28,18 @@ const (
 	errEOF         = 5 // io.ErrUnexpectedEOF (connection dropped mid-body)
 	errTimeout     = 6 // *url.Error wrapping context.DeadlineExceeded (http.Client timeout)
 	errUnavailable = 7 // gRPC-status Unavailable: the only kind trillian's backoff.Retry itself retries (with pauses)
-	errCanceled    = 8 // transport error wrapping context.Canceled (a proxy / dialer gave up), not the caller's context
-	nErrKinds      = 8
+	errCanceled    = 8  // transport error wrapping context.Canceled (a proxy / dialer gave up), not the caller's context
+	errCutBody     = 9  // HTTP 200 whose JSON body is cut off (connection reset mid-response): the real client reports RspError{200}
+	errGarbled     = 10 // HTTP 200 with a body that is not JSON (an intermediary's error page)
+	nErrKinds      = 10
 )
 
 const fakeURI = "https://log.verif.example/c16"
+
+const (
+	cutBody     = `{"entries":[{"leaf_input":"AAAAAAF0aW1lc3RhbXA","extra_da`
+	garbledBody = "<html><body><h1>502 upstream hiccup</h1></body></html>"
+)
 
 func mkErr(kind int) error {
 	switch kind {
@@ -50,6 +57,10 @@ func mkErr(kind int) error {
 		return &url.Error{Op: "Get", URL: fakeURI, Err: context.DeadlineExceeded}
 	case errCanceled:
 		return &url.Error{Op: "Get", URL: fakeURI, Err: fmt.Errorf("proxy: %w", context.Canceled)}
+	case errCutBody:
+		return jsonclient.RspError{Err: errors.New("unexpected EOF"), StatusCode: 200, Body: []byte(cutBody)}
+	case errGarbled:
+		return jsonclient.RspError{Err: errors.New("invalid character '<' looking for beginning of value"), StatusCode: 200, Body: []byte(garbledBody)}
 	case errUnavailable:
 		return status.Error(codes.Unavailable, "backend unavailable")
 	}
@@ -111,12 +122,24 @@ func (f *fakeLog) sizeNow() int64 {
 const callBudget = 400000 // a run that needs more get-entries calls than this is spinning
 
 func (f *fakeLog) GetSTH(ctx context.Context) (*ct.SignedTreeHead, error) {
+	size, kind, err := f.sth(ctx)
+	if err != nil {
+		return nil, err
+	}
+	if kind != errNone {
+		return nil, mkErr(kind)
+	}
+	return &ct.SignedTreeHead{Version: ct.V1, TreeSize: uint64(size), Timestamp: t0 + uint64(size)}, nil
+}
+
+// sth is the scripted get-sth: the tree size, or the kind of the scripted failure, or the context's error.
+func (f *fakeLog) sth(ctx context.Context) (int64, int, error) {
 	f.mu.Lock()
 	n := f.sthCalls
 	f.sthCalls++
 	f.mu.Unlock()
 	if !vt.Sleep(ctx, time.Duration(f.c.STHLatMs)*time.Millisecond) {
-		return nil, ctx.Err()
+		return 0, errNone, ctx.Err()
 	}
 	if n < len(f.c.STHErrs) && f.c.STHErrs[n] != errNone {
 		f.mu.Lock()
@@ -125,7 +148,7 @@ func (f *fakeLog) GetSTH(ctx context.Context) (*ct.SignedTreeHead, error) {
 			f.sthPollErrs[f.c.STHErrs[n]]++
 		}
 		f.mu.Unlock()
-		return nil, mkErr(f.c.STHErrs[n])
+		return 0, f.c.STHErrs[n], nil
 	}
 	size := f.sizeNow()
 	f.mu.Lock()
@@ -139,13 +162,45 @@ func (f *fakeLog) GetSTH(ctx context.Context) (*ct.SignedTreeHead, error) {
 		f.maxSTH = size
 	}
 	f.mu.Unlock()
-	return &ct.SignedTreeHead{Version: ct.V1, TreeSize: uint64(size), Timestamp: t0 + uint64(size)}, nil
+	return size, errNone, nil
 }
 
 func (f *fakeLog) GetRawEntries(ctx context.Context, start, end int64) (*ct.GetEntriesResponse, error) {
+	resp, kind, err := f.entries(ctx, start, end)
+	if err != nil {
+		return nil, err
+	}
+	if kind != errNone {
+		return nil, mkErr(kind)
+	}
+	return resp, nil
+}
+
+// countCall enforces the call budget (also used by the HTTP route for requests the real client refuses
+// before they reach the log).
+func (f *fakeLog) countCall() bool {
 	f.mu.Lock()
 	f.total++
 	total := f.total
+	f.mu.Unlock()
+	if total > 2*callBudget {
+		// the run keeps hammering the log although it was cancelled: no virtual time passes in such a loop,
+		// so the watchdog cannot end it. Dying loudly leaves the persisted case for the driver.
+		panic(fmt.Sprintf("c16: request storm: %d get-entries calls, run does not stop after cancellation", total))
+	}
+	if total > callBudget {
+		f.abort("request-storm", fmt.Sprintf("more than %d get-entries calls", callBudget))
+		return false
+	}
+	return true
+}
+
+// entries is the scripted get-entries: the answer, or the kind of the scripted failure, or the context's error.
+func (f *fakeLog) entries(ctx context.Context, start, end int64) (*ct.GetEntriesResponse, int, error) {
+	if !f.direct && !f.countCall() {
+		return nil, errNone, context.Canceled
+	}
+	f.mu.Lock()
 	n := f.calls[start]
 	f.calls[start] = n + 1
 	f.inflight++
@@ -158,18 +213,9 @@ func (f *fakeLog) GetRawEntries(ctx context.Context, start, end int64) (*ct.GetE
 		f.inflight--
 		f.mu.Unlock()
 	}()
-	if total > 2*callBudget {
-		// the run keeps hammering the log although it was cancelled: no virtual time passes in such a loop,
-		// so the watchdog cannot end it. Dying loudly leaves the persisted case for the driver.
-		panic(fmt.Sprintf("c16: request storm: %d get-entries calls, run does not stop after cancellation", total))
-	}
-	if total > callBudget {
-		f.abort("request-storm", fmt.Sprintf("more than %d get-entries calls", callBudget))
-		return nil, context.Canceled
-	}
 	if start < 0 || end < start {
 		f.abort("bad-request", fmt.Sprintf("get-entries start=%d end=%d", start, end))
-		return nil, context.Canceled
+		return nil, errNone, context.Canceled
 	}
 	p := f.c.Plans[int(start%int64(len(f.c.Plans)))]
 	if n < len(p.Errs) {
